@@ -54,8 +54,49 @@ pub fn dec_bytes(c: &DecCase) -> Vec<u8> {
     }
 }
 
+/// Hang detection for the "terminates" clause: every decoder case publishes its input; a monitor thread turns an
+/// input that has been running for more than 30 s into a violation with a replay file (a hang cannot be unwound).
+static IN_FLIGHT: std::sync::Mutex<Vec<(std::thread::ThreadId, std::time::Instant, Vec<u8>)>> = std::sync::Mutex::new(Vec::new());
+
+fn publish(bytes: Option<&[u8]>) {
+    let id = std::thread::current().id();
+    if let Ok(mut v) = IN_FLIGHT.lock() {
+        v.retain(|e| e.0 != id);
+        if let Some(b) = bytes {
+            v.push((id, std::time::Instant::now(), b.to_vec()));
+        }
+    }
+}
+
+pub fn start_hang_monitor(verif_dir: std::path::PathBuf) {
+    std::thread::spawn(move || loop {
+        std::thread::sleep(std::time::Duration::from_secs(2));
+        let stuck = IN_FLIGHT
+            .lock()
+            .ok()
+            .and_then(|v| v.iter().find(|e| e.1.elapsed().as_secs() >= 30).map(|e| e.2.clone()));
+        if let Some(bytes) = stuck {
+            let dir = verif_dir.join("replays");
+            let _ = std::fs::create_dir_all(&dir);
+            let path = dir.join(format!("C03-hang-{:016x}.json", hash_of(&bytes)));
+            let body = json!({"property": "C03", "check": "decode-bytes", "reason": "decoding did not terminate within 30 s", "case": hex(&bytes)});
+            let _ = std::fs::write(&path, serde_json::to_string_pretty(&body).unwrap());
+            println!("reason: decoding {} bytes did not terminate within 30 s", bytes.len());
+            println!("VIOLATION property=C03 replay={}", path.display());
+            std::process::exit(1);
+        }
+    });
+}
+
 /// The decoder contract on one input; shared with the fuzz target.
 pub fn check_decode_bytes(bytes: &[u8], st: &mut Stats) -> Result<(), String> {
+    publish(Some(bytes));
+    let r = check_decode_bytes_inner(bytes, st);
+    publish(None);
+    r
+}
+
+fn check_decode_bytes_inner(bytes: &[u8], st: &mut Stats) -> Result<(), String> {
     let key = conv::lib_key(&KeySpec::ShortTerm("wild-pass".into())).map_err(|e| format!("HARNESS-{}", e))?;
     let header_ok = matches!(ref_header(bytes), Ok((_, l, _)) if 20 + l as usize <= bytes.len());
     if header_ok {
@@ -327,6 +368,7 @@ pub fn run(ctx: &Ctx) -> RunResult {
         "'remain usable' = after the history and a timer drain a fresh request is accepted and an authentic reply (for long-term: a 401 then an authentic success) completes".into(),
         "termination is observed as the call returning; hangs would surface as the run not finishing (reported as inconclusive by the caller's timeout)".into(),
     ];
+    start_hang_monitor(ctx.verif_dir.clone());
     rr.absorb(run_prop(ctx, "decode", ctx.pick(400_000, 4_000_000), arb_dec, |c, st| check_dec(c, st)));
     let o = client_opts();
     rr.absorb(run_prop(ctx, "client", ctx.pick(100_000, 1_000_000), move || arb_history(o.clone()), |h, st| check_client(h, ctx, st)));
